@@ -45,3 +45,11 @@ Definition bs_circle_integrand (cur r0 : R) (o : RV3) (i : nat) (phi : R) : R :=
 
 (* distance of o from the supporting line of p1 p2, times |p2 - p1| *)
 Definition line_cross_norm (o p1 p2 : RV3) : R := Rnorm (Rcross (Rvsub p2 p1) (Rvsub o p1)).
+
+(* quantities of a straight segment p1 -> p2 seen from o (used in the statements of C01):
+   segA = |p2-p1|^2, segB = -2 (o-p1).(p2-p1), segC = |o-p1|^2, so that |o - p1 - s (p2-p1)|^2 = segA s^2 + segB s + segC;
+   segX = (p2-p1) x (o-p1): |segX| = |p2-p1| * (distance of o from the supporting line) = line_cross_norm *)
+Definition segA (o p1 p2 : RV3) := Rdot (Rvsub p2 p1) (Rvsub p2 p1).
+Definition segB (o p1 p2 : RV3) := - 2 * Rdot (Rvsub o p1) (Rvsub p2 p1).
+Definition segC (o p1 p2 : RV3) := Rdot (Rvsub o p1) (Rvsub o p1).
+Definition segX (o p1 p2 : RV3) := Rcross (Rvsub p2 p1) (Rvsub o p1).
